@@ -10,6 +10,7 @@ EXPLANATION = (
     "may be in the page copy) and the Completed manifest is written only after both copies returned Ok; (3) restore refuses manifests that are not "
     "Completed (the copy-back is unreachable from the Failed / InProgress arms). Content equality is not decided; fsync of the copies is a power-loss "
     "matter outside the property and is only listed."
+    " C29.4: copy_ndb_file / copy_wal_file copy the whole source file (no length-limited reader, counted read or truncation)."
 )
 
 BM = "nervusdb_storage::backup::BackupManager"
